@@ -130,6 +130,13 @@ def handle (op : String) (args : List String) : Option String :=
     let b ← bytesOfHex s
     pure (optTok (matchId b))
   -- every rune in [0x80, 0x10FFFF] the model takes for white space
+  -- the productions whose semantic action can abort the parse (regenerated fact)
+  | "failprods", [] => pure (" ".intercalate (Gen.mmFailProds.map toString))
+  -- mmLast mmPrivate mmFlag, number of states and of productions (regenerated facts)
+  | "lrconsts", [] =>
+    pure (s!"{Gen.mmLast} {Gen.mmPrivate} {Gen.mmFlag} " ++
+      toString (Gen.mmPact.foldl (fun a l => a + l.length) 0) ++ " " ++
+      toString (Gen.mmR1.foldl (fun a l => a + l.length) 0))
   | "unispaces", [] =>
     pure (" ".intercalate (((List.range 0x110000).filter fun r => r ≥ 0x80 && Martian.Tokenizer.isUniSpace r).map
       fun r => String.ofList (Nat.toDigits 16 r)))
